@@ -93,9 +93,21 @@ def generate(repo):
     # non-static file-scope variables
     for f, n in (("compileTranslationTable.c", None),):
         pass
-    src = source(repo, "lou_translateString.c")
-    for m in re.finditer(r"(?m)^int\s+(translation_direction)\s*=", src):
-        inv.append(("lou_translateString.c", "file", m.group(1)))
+    # non-static file-scope variables (definitions at column 0 with an initialiser or a plain `type name;')
+    for f in FILES:
+        src = source(repo, f)
+        funcs = cparse.list_functions(src)
+        spans = []
+        pos = 0
+        for fn, body in funcs:
+            i = src.find(body, pos)
+            if i >= 0:
+                spans.append((i, i + len(body)))
+                pos = i + len(body)
+        for m in re.finditer(r"(?m)^(?:unsigned\s+|signed\s+)?(?:int|long|short|char|widechar|formtype|size_t)\s+\**(\w+)\s*(?:\[[^\]]*\])?\s*(?:=[^;{]*)?;", src):
+            if any(a <= m.start() < b for a, b in spans):
+                continue
+            inv.append((f, "file", m.group(1)))
     inv = sorted(set(inv))
     out = [HEADER, "From Lou Require Import Gen.GConst.\n\n"]
     out.append("(* every non-const static / file-scope variable of the library: (file, scope, name) *)\n")
@@ -167,6 +179,24 @@ def generate(repo):
     resets = sorted(set(re.findall(r"(\w+(?:\[k\])?) = (?:NULL|0);", txt)))
     out.append("Definition free_resets : list string := [%s].\n" % "; ".join(coq_string(r.replace("[k]", "")) for r in resets))
     out.append(reset_facts(repo))
+    out.append(direction_facts(repo))
+    return "".join(out)
+
+
+def direction_facts(repo):
+    """translation_direction (pattern.c) selects the character or the cell table for attribute patterns: every main-pass
+    function must set it, before its first loop, to its own direction"""
+    out = ["\n(* main-pass functions that assign translation_direction: (file, function, value, before the first loop) *)\n"]
+    rows = []
+    for f in ("lou_translateString.c", "lou_backTranslateString.c"):
+        src = source(repo, f)
+        for fn, body in cparse.list_functions(src):
+            ms = list(re.finditer(r"\btranslation_direction\s*=\s*(\d+)\s*;", body))
+            for m in ms:
+                j = min([x for x in (body.find("while"), body.find("for (")) if x >= 0] or [len(body)])
+                rows.append((f, fn, int(m.group(1)), m.start() < j))
+    out.append("Definition direction_assignments : list (string * string * Z * bool) := [%s].\n"
+               % "; ".join("(%s, %s, %d, %s)" % (coq_string(a), coq_string(b), c, "true" if d else "false") for a, b, c, d in sorted(rows)))
     return "".join(out)
 
 
